@@ -35,6 +35,7 @@ JudgeC09Var(G, want, v) ==
     LET H == Relabel(G, v.pi)  r == v.r IN
     IF Crashed(v.res) THEN v.res
     ELSE IF ~r.same THEN "an invariant function changed the graph it was given"
+    ELSE IF ~r.stable THEN "a slice returned by a colouring / degeneracy function changed during later calls (the result shares memory with them)"
     ELSE IF r.clique # want.omega THEN "CliqueNumber differs from the definition"
     ELSE IF r.indep # want.alpha THEN "IndependenceNumber differs from the definition"
     ELSE IF Len(r.maxcliques) # Cardinality(MaximalCliques(H)) \/ { SeqRange(c) : c \in SeqRange(r.maxcliques) } # MaximalCliques(H)
@@ -102,6 +103,24 @@ WantC10(G, e) ==
      capC |-> [i \in 1..Len(e.mls) |-> CapC(n, e.mls[i])],
      capP |-> [i \in 1..Len(e.mls) |-> CapP(n, e.mls[i])]]
 
+(* graphs with hundreds of vertices whose invariants are known in closed form: star K(1,n-1), complete graph, cycle *)
+BigWant(kind, n) == IF kind = "star" THEN [omega |-> 2, chi |-> 2, degen |-> 1, mind |-> 1, maxd |-> n - 1]
+                    ELSE IF kind = "complete" THEN [omega |-> n, chi |-> n, degen |-> n - 1, mind |-> n - 1, maxd |-> n - 1]
+                    ELSE [omega |-> 2, chi |-> 2 + (n % 2), degen |-> 2, mind |-> 2, maxd |-> 2]
+JudgeC09Big(G, kind, v) ==
+    LET H == Relabel(G, v.pi)  r == v.r  want == BigWant(kind, G.n) IN
+    IF Crashed(v.res) THEN v.res
+    ELSE IF ~r.same THEN "an invariant function changed the graph it was given"
+    ELSE IF r.clique # want.omega THEN "CliqueNumber differs from the closed form"
+    ELSE IF r.chrom.k # want.chi THEN "ChromaticNumber differs from the closed form"
+    ELSE IF ColouringWhy(H, want.chi, r.chrom.col, "ChromaticNumber") # "" THEN ColouringWhy(H, want.chi, r.chrom.col, "ChromaticNumber")
+    ELSE IF ColouringWhy(H, H.n, r.greedy.col, "GreedyColor") # "" THEN ColouringWhy(H, H.n, r.greedy.col, "GreedyColor")
+    ELSE IF r.degen.d # want.degen THEN "Degeneracy differs from the closed form"
+    ELSE IF ~IsPermSeq(r.degen.order, H.n) \/
+            \E i \in 1..H.n : Cardinality(Nbrs(H, r.degen.order[i]) \cap { r.degen.order[j] : j \in 1..(i - 1) }) > want.degen THEN "Degeneracy: the ordering does not certify d"
+    ELSE IF r.mindeg # want.mind \/ r.maxdeg # want.maxd THEN "MinDegree / MaxDegree differ from the closed form"
+    ELSE ""
+
 (* ---------------- C11 ---------------- *)
 JudgeC11Var(want, v) ==
     IF Crashed(v.res) THEN "IsPlanar " \o v.res
@@ -112,6 +131,8 @@ JudgeC11Var(want, v) ==
 JudgeEvent(e) ==
     LET G == GofJ(e.g) IN
     IF \E i \in 1..Len(e.vars) : ~IsPermSeq(e.vars[i].pi, G.n) THEN "HARNESS: relabelling is not a permutation"
+    ELSE IF e.prop = "C09" /\ e.known # "" THEN LET bads == { i \in 1..Len(e.vars) : JudgeC09Big(G, e.known, e.vars[i]) # "" } IN
+         IF bads = {} THEN "" ELSE JudgeC09Big(G, e.known, e.vars[Min(bads)]) \o " (variant " \o e.vars[Min(bads)].rep \o ")"
     ELSE IF e.prop = "C09" THEN LET w == WantC09(G)  bads == { i \in 1..Len(e.vars) : JudgeC09Var(G, w, e.vars[i]) # "" } IN
          IF bads = {} THEN "" ELSE JudgeC09Var(G, w, e.vars[Min(bads)]) \o " (variant " \o e.vars[Min(bads)].rep \o ")"
     ELSE IF e.prop = "C10" THEN LET w == WantC10(G, e)  bads == { i \in 1..Len(e.vars) : JudgeC10Var(G, w, e.vars[i]) # "" } IN
